@@ -29,6 +29,7 @@ def cases(draw, tier):
         case = gen.scotland_prior_stage_case(d) if d.p(40) else gen.scotland_threeway_case(d)
     else:
         case = draw(gen.election_cases(tier=tier, equal_for_meek=False))
+    case.pop('nicks', None)
     nc = case['ncand']
     if case['tie'] is None:
         case['tie'] = d.perm(range(1, nc + 1))
